@@ -48,6 +48,8 @@ type frame struct {
 	// for inlined calls: the argument expression each parameter stands for, in the caller's frame
 	args   map[types.Object]ast.Expr
 	parent *frame
+	vargs  map[types.Object][]ast.Expr // variadic parameter -> the call's trailing arguments (caller's frame)
+	unrolled bool // one iteration of an unrolled loop over a fixed list: the loop variable is in subst
 }
 
 type marker struct {
@@ -597,6 +599,19 @@ func (m *Matcher) run(st state) {
 			m.fail("mismatch", w, r, wfr, rfr, "reader hands the stream to %s but the writer continues with %s (not a codec pair, not inlinable)", core.FuncName(rcall.Callee), describe(m.X, w))
 			return
 		}
+		// ---- loops over a fixed list of expressions are unrolled (one sub-frame per element)
+		if l, ok := w.(*Loop); ok {
+			if nc := m.unroll(l, wc, wfr); nc != nil {
+				st.w = nc
+				continue
+			}
+		}
+		if l, ok := r.(*Loop); ok {
+			if nc := m.unroll(l, rc, rfr); nc != nil {
+				st.r = nc
+				continue
+			}
+		}
 		// ---- loops
 		wl, wIsLoop := w.(*Loop)
 		rl, rIsLoop := r.(*Loop)
@@ -772,8 +787,17 @@ func (m *Matcher) inline(call *Call, c *cont, fr *frame) *cont {
 			nfr.subst[cc.Recv] = s
 		}
 	}
+	if sig, ok := call.Callee.Type().(*types.Signature); ok && sig.Variadic() && !call.Expr.Ellipsis.IsValid() && len(cc.Params) > 0 {
+		last := len(cc.Params) - 1
+		if cc.Params[last] != nil && len(call.Expr.Args) >= last {
+			nfr.vargs = map[types.Object][]ast.Expr{cc.Params[last]: call.Expr.Args[last:]}
+		}
+	}
 	for i, a := range call.Expr.Args {
 		if i == call.StreamArg || i >= len(cc.Params) || cc.Params[i] == nil {
+			continue
+		}
+		if nfr.vargs != nil && i == len(cc.Params)-1 {
 			continue
 		}
 		nfr.args[cc.Params[i]] = a
@@ -943,6 +967,11 @@ func (m *Matcher) matchPrim(st *state, wp, rp *Prim, wc, rc *cont) bool {
 	wk, rk := wp.Kind, rp.Kind
 	wlabel := m.wlabelOf(wfr, wp)
 	rlabel := m.relabel(rfr, rp.Label)
+	if rp.Target != nil && rfr.unrolled {
+		if s, ok := m.X.canonF(rfr, stripConv(rfr.ctx, rp.Target), 0); ok {
+			rlabel = s
+		}
+	}
 	bindVal := func(av absval) {
 		st.e = st.e.clone()
 		if rp.Bind != nil {
@@ -1577,6 +1606,53 @@ func (m *Matcher) loopConst(fr *frame, l *Loop) (int64, bool) {
 				}
 			}
 		}
+		// a list of fixed length: a slice literal, or a call of a function whose body is one
+		// `return []T{...}` (fields in wire order), possibly through a parameter bound to such a call
+		if n, ok := m.fixedListLen(fr, l.Range, 0); ok {
+			return n, true
+		}
+	}
+	return 0, false
+}
+
+func (m *Matcher) fixedListLen(fr *frame, e ast.Expr, depth int) (int64, bool) {
+	if depth > 3 || fr == nil {
+		return 0, false
+	}
+	e = stripConv(fr.ctx, e)
+	switch v := ast.Unparen(e).(type) {
+	case *ast.CompositeLit:
+		if _, isSlice := fr.ctx.Info.TypeOf(v).Underlying().(*types.Slice); isSlice {
+			for _, el := range v.Elts {
+				if _, kv := el.(*ast.KeyValueExpr); kv {
+					return 0, false
+				}
+			}
+			return int64(len(v.Elts)), true
+		}
+	case *ast.CallExpr:
+		fn := calleeOf(fr.ctx.Info, v)
+		if fn == nil {
+			return 0, false
+		}
+		fi := m.X.P.FuncOf(fn)
+		if fi == nil || fi.Decl.Body == nil || len(fi.Decl.Body.List) != 1 {
+			return 0, false
+		}
+		if rs, ok := fi.Decl.Body.List[0].(*ast.ReturnStmt); ok && len(rs.Results) == 1 {
+			cfr := &frame{ctx: m.X.Ctx(fi)}
+			return m.fixedListLen(cfr, rs.Results[0], depth+1)
+		}
+	case *ast.Ident:
+		obj := fr.ctx.Info.ObjectOf(v)
+		if a, ok := fr.args[obj]; ok && fr.parent != nil {
+			return m.fixedListLen(fr.parent, a, depth+1)
+		}
+		if obj != nil && isLocalVar(obj) {
+			if d := fr.ctx.singleDef(obj); d != nil {
+				return m.fixedListLen(fr, d, depth+1)
+			}
+		}
 	}
 	return 0, false
 }
@@ -1590,6 +1666,11 @@ func rootIdentOrNil(e ast.Expr) *ast.Ident {
 }
 
 func (m *Matcher) checkCountLink(st state, wl, rl *Loop, wfr, rfr *frame) {
+	if os.Getenv("WIRE_DEBUG") == "count" {
+		wn, wok := m.loopConst(wfr, wl)
+		rn, rok := m.loopConst(rfr, rl)
+		fmt.Fprintf(os.Stderr, "countlink w=%v/%v r=%v/%v wrange=%v wparent=%v wargs=%d wk=%s rk=%s\n", wn, wok, rn, rok, wl.Range != nil, wfr.parent != nil, len(wfr.args), m.loopKeyW(wfr, wl), m.loopKeyW(rfr, rl))
+	}
 	if wn, ok := m.loopConst(wfr, wl); ok {
 		if rn, ok2 := m.loopConst(rfr, rl); ok2 {
 			if wn != rn {
@@ -1614,6 +1695,27 @@ func (m *Matcher) checkCountLink(st state, wl, rl *Loop, wfr, rfr *frame) {
 	if wk == "" {
 		m.fail("countlink", wl, rl, wfr, rfr, "cannot name the repetition count of the writer's loop")
 		return
+	}
+	// a helper pair walking the same (non-stream) parameter on both sides: the count is the caller's,
+	// out of band (writeFields(out, list) ~ readFields(in, list))
+	if wfr.parent == nil && rfr.parent == nil && wl.Range != nil && rl.Range != nil {
+		pidx := func(fr *frame, e ast.Expr) int {
+			id, ok := ast.Unparen(stripConv(fr.ctx, e)).(*ast.Ident)
+			if !ok {
+				return -1
+			}
+			obj := fr.ctx.Info.ObjectOf(id)
+			for i, po := range fr.ctx.Params {
+				if po == obj && obj != nil && !m.X.IsStream(obj.Type()) {
+					return i
+				}
+			}
+			return -1
+		}
+		if wi := pidx(wfr, wl.Range); wi >= 0 && wi == pidx(rfr, rl.Range) {
+			m.Res.Notes = append(m.Res.Notes, "both helpers walk the list they are given as parameter "+fmt.Sprint(wi)+": the count is the caller's (out of band)")
+			return
+		}
 	}
 	carried, ok := st.e.wcount[wk]
 	if !ok {
@@ -2452,4 +2554,56 @@ func (m *Matcher) clampedCount(wfr *frame, wl, rl *Loop, rfr *frame) {
 	if sized && clamp != "" {
 		m.fail("omission", wl, rl, wfr, rfr, "the writer's repetition count %s starts as the size of the collection and is overwritten with %s on some path: the elements beyond it are never written", id.Name, clamp)
 	}
+}
+
+// unroll: `for _, v := range <fixed list>` where the list is an array/slice literal or the variadic
+// parameter of an inlined call: the body is matched once per element, in order, with the loop variable
+// standing for that element (rendered in the frame the element was written in).
+func (m *Matcher) unroll(l *Loop, c *cont, fr *frame) *cont {
+	rs, ok := l.Stmt.(*ast.RangeStmt)
+	if !ok || l.Range == nil || rs.Value == nil {
+		return nil
+	}
+	vid, ok := rs.Value.(*ast.Ident)
+	if !ok || vid.Name == "_" {
+		return nil
+	}
+	vobj := fr.ctx.Info.ObjectOf(vid)
+	if vobj == nil {
+		return nil
+	}
+	var elems []ast.Expr
+	efr := fr
+	switch x := ast.Unparen(stripConv(fr.ctx, l.Range)).(type) {
+	case *ast.CompositeLit:
+		for _, el := range x.Elts {
+			if _, kv := el.(*ast.KeyValueExpr); kv {
+				return nil
+			}
+		}
+		elems = x.Elts
+	case *ast.Ident:
+		if va, ok := fr.vargs[fr.ctx.Info.ObjectOf(x)]; ok && fr.parent != nil {
+			elems, efr = va, fr.parent
+		}
+	}
+	if len(elems) == 0 || len(elems) > 64 {
+		return nil
+	}
+	next := c.advance()
+	for i := len(elems) - 1; i >= 0; i-- {
+		s, ok := m.X.canonF(efr, stripConv(efr.ctx, elems[i]), 0)
+		if !ok {
+			return nil
+		}
+		m.frameSeq++
+		nfr := &frame{ctx: fr.ctx, subst: map[types.Object]string{}, id: m.frameSeq, args: fr.args, parent: fr.parent, vargs: fr.vargs, hook: fr.hook, unrolled: true}
+		for k, v := range fr.subst {
+			nfr.subst[k] = v
+		}
+		nfr.subst[vobj] = s
+		m.depthOf[nfr] = m.depthOf[fr]
+		next = mkCont(l.Body, 0, next, nfr, false)
+	}
+	return next
 }
